@@ -1096,15 +1096,24 @@ class CSSSerializer:
                         '0.'
                     ):
                         val = val.replace('0.', '.', 1)
-                if val == '0' and value.dimension in (
-                    'cm',
-                    'mm',
-                    'in',
-                    'px',
-                    'pc',
-                    'pt',
-                    'em',
-                    'ex',
+                if (
+                    val == '0'
+                    and value.dimension
+                    in (
+                        'cm',
+                        'mm',
+                        'in',
+                        'px',
+                        'pc',
+                        'pt',
+                        'em',
+                        'ex',
+                    )
+                    # inside calc() or another function a bare 0 is a number,
+                    # no length
+                    and not isinstance(
+                        getattr(value, 'parent', None), cssutils.css.value.CSSFunction
+                    )
                 ):
                     dim = ''
 
